@@ -510,9 +510,8 @@ def hash_roundtrip(arrays, fmt, via_file, scratch):
         else:
             text = mol.to_string(fmt)
             mol2 = Molecule.from_data(text, dtype=fmt)
-            # format auto-detection on a valid text (psi4 -> xyz -> xyz+ cascade: an xyz+ text without ghosts and unit
-            # marker is also a valid strict xyz text and is read as such, so only psi4 and xyz are compared)
-            mol3 = Molecule.from_data(text) if fmt != "xyz+" else mol2
+            # format auto-detection (dtype=None) on a valid text must give the molecule the explicit dtype gives
+            mol3 = Molecule.from_data(text)
             if mol3.get_hash() != mol2.get_hash():
                 return f"auto-detection reads a valid {fmt} text as a different molecule than dtype={fmt}", text
     except Exception as e:
@@ -620,6 +619,27 @@ def correspond(ctx):
             corr.sample({"input": case, "parse": ob["parse"][0], "final": ob["final"][0]})
     corr.notes.append(f"{skipped} generated texts outside the model (pubchem/efp/non-ASCII) were skipped")
 
+    # ---- auto-detection (dtype=None): valid texts, their layout rewrites, and a share of the mutations
+    auto_terms, auto_meta = [], []
+    for stream, dtype, text, extra in cases:
+        if not (stream in ("valid", "corpus") or stream.startswith("layout:") or (stream == "mutation" and rng.random() < 0.25)):
+            continue
+        if not inside_model(text) or len(text) > 3000:
+            continue
+        ob = observe(text, None)
+        corr.count("auto")
+        corr.hit(f"auto:parse:{ob['parse'][0] if ob['parse'][0] == 'Ok' else ob['parse'][1]}")
+        bad = totality_failure(ob["final"])
+        if bad:
+            corr.failures.append({"stream": "totality", "case": {"dtype": None, "text": text, "stream": "auto"}, "what": bad,
+                                  "observed": list(ob["final"][:2])})
+        if ob["parse"][0] == "Ok" and not _finite(ob["parse"][1]):
+            continue
+        exp = f"(Ok {processed_term(ob['parse'][1])})" if ob["parse"][0] == "Ok" else \
+            f"(Err {ob['parse'][1] if not ob['parse'][1].startswith('Other:') else 'PyAssertion'})"
+        auto_terms.append(f"({cstr(text)}, {exp})")
+        auto_meta.append((text, ob))
+
     # ---- hash round trip through Molecule
     nh = 600 if ctx.thorough else 60
     for k in range(nh):
@@ -645,6 +665,12 @@ def correspond(ctx):
             got, _ = coqrun.eval_terms("C07", REQ, PRELUDE, [f"parse {cstr(case['dtype'])} {cstr(case['text'])}"])
         corr.disagreements.append({"stream": stream, "case": case, "impl": [ob["parse"][0], str(ob["parse"][1])[:1500]],
                                    "model": (got or ["(not printed)"])[0][:1500]})
+    bad, errors = c08.eval_with_retry(ctx, "C07auto", REQ, PRELUDE, "check_auto", auto_terms, 250, "string * outcome processed_b")
+    corr.errors.extend(f"auto shard {k}: {e}" for k, e in errors)
+    for b in bad:
+        text, ob = auto_meta[b]
+        corr.disagreements.append({"stream": "auto", "case": {"dtype": None, "text": text, "stream": "auto"},
+                                   "impl": [ob["parse"][0], str(ob["parse"][1])[:1500]], "model": "(differs)"})
     bad, errors = c08.eval_with_retry(ctx, "C07lex", REQ, PRELUDE, "check_lex", lex_terms, 1500, "string * string * bool")
     corr.errors.extend(f"lex shard {k}: {e}" for k, e in errors)
     for b in bad:
@@ -708,7 +734,18 @@ def _mult_overflow(f):
             and re.search(r"(?<!\d)\d{309,4300}(?!\d)", text) is not None)
 
 
-KNOWN = {"C07-int-digit-limit": _digit_limit, "C07-mult-overflow": _mult_overflow}
+def _autodetect_shadow(f):
+    """hash stream, an xyz+ text that is also a valid strict xyz text was auto-detected as xyz — nothing else."""
+    case = f.get("case") or {}
+    text = f.get("observed")
+    if f.get("stream") != "hash" or case.get("fmt") != "xyz+" or not isinstance(text, str):
+        return False
+    if "auto-detection reads a valid xyz+ text as a different molecule" not in str(f.get("what", "")):
+        return False
+    return observe(text, "xyz")["final"][0] == "Ok" and observe(text, "psi4")["final"][0] == "Err"
+
+
+KNOWN = {"C07-int-digit-limit": _digit_limit, "C07-mult-overflow": _mult_overflow, "C07-autodetect-xyzplus-shadowed": _autodetect_shadow}
 
 TECHNIQUE = ("Coq proof over a hand-written Gallina model of from_string's Cartesian readers and of the writers + differential "
              "correspondence (recognisers vs re; parser vs from_string) + round-trip / layout / totality oracles on the implementation")
